@@ -33,6 +33,9 @@ def gen_ops():
     add("run_err_in_cond", 'y1 = 1\nfb = 0\nfor ; y1 + nil; { }\nprobe(9)', pt=STD_PT)
     # variables named like keywords and functions (back-quoted): later scripts still use the words as keywords
     add("run_bq_keywords", '`in` = 1\n`true` = 2\n`nil` = 3\n`for` = `in` + `true`\n`len` = `for`\nprobe(`for`, `nil`, `len`)', pt=STD_PT)
+    # literals are fresh every time: a map / list born from an empty literal and then written into, later empty literals observed
+    add("run_emptymap_write", 'm = {}\nm[fs] = fi\nl = []\nadd_key(mm, m)\nprobe(m, l)', pt=STD_PT)
+    add("run_emptymap_read", 'd = {}\nif d { probe(1) }\nfor k in {} { probe(k) }\nadd_key(dd, d)\nprobe(d, len(d), [], len([]), "sv" in {})', pt=STD_PT)
     # the same grok text under different local definitions of the alias it names, and with no definition at all
     add("run_grok_digits", 'add_pattern("hw", "\\\\d+")\nok = grok(fs, "%{hw:w}")\nprobe(ok, w)', pt={"meas": "m", "tags": {}, "fields": {"fs": "abc 123"}})
     add("run_grok_letters", 'add_pattern("hw", "[a-c]+")\nok = grok(fs, "%{hw:w}")\nprobe(ok, w)', pt={"meas": "m", "tags": {}, "fields": {"fs": "abc 123"}})
